@@ -102,5 +102,6 @@ def handleDom (st : St) (op : String) (j : Json) : Option (D (St × Json)) :=
   -- the decidable schema hypotheses of the C19 placement theorems
   | "domHyps" => some do
     let S ← getSchema st j
-    return (st, ok (Json.mkObj [("det", Json.bool (detB S)), ("textStable", Json.bool (textStableB S))]))
+    return (st, ok (Json.mkObj [("det", Json.bool (detB S)), ("textStable", Json.bool (textStableB S)),
+      ("leafOk", Json.bool (leafOkB S))]))
   | _ => none
